@@ -17,6 +17,9 @@ def behaviours(cfg, tag, simulate=None, seed=1):
         raise lib.ToolError(f"no behaviours from {cfg}")
     uniq = {}
     for x in b:
+        # the connection state the behaviour starts in (its first history entry, Rpc!ConnCode)
+        if x["hist"] and x["hist"][0][0] == "start":
+            x["conn"] = ["up", "absent", "broken", "closing"][x["hist"][0][1]]
         uniq[json.dumps(x["hist"])] = x
     return list(uniq.values())
 
@@ -149,8 +152,35 @@ def run(tier, seed):
         return h.index(["wake", 1]) < i2 and any(a == ["route", 1] for a in h[i2:e])
     seq2 = [b for b in seq2 if dup_after_reuse(b)]
     seq2 = seq2 if thorough else rng.sample(seq2, min(len(seq2), 40))
+    # the peer closes its side in mid-behaviour (or had closed it before the behaviour starts) and the receiver deregisters the
+    # connection while calls are in flight: the ones written in that window are left to their timers and must clean up
+    lib.tlc_expect_ok("mc/MC_Rpc.tla", "mc/MC_Rpc_close.cfg", PID, "mc_close")
+    lib.tlc_expect_violation("mc/MC_Rpc.tla", "mc/MC_Rpc_leakgone.cfg", PID, "mc_leakgone", "NothingLeft")
+    v.cov["mc_configs"] += [{"cfg": "MC_Rpc_close", "result": "all invariants hold when the peer may close in mid-behaviour and the receiver deregisters the connection at any later point"},
+                            {"cfg": "MC_Rpc_leakgone", "result": "counterexample to NothingLeft when a call that times out after the deregistration keeps its entry"}]
+    close = behaviours("gen/Gen_Rpc_close2.cfg", "gen_close", simulate=f"num={3000 if thorough else 600}", seed=seed)
+
+    def sent_in_window_then_deregistered(b):
+        h = b["hist"]
+        closing = b["conn"] == "closing"
+        sent_in_window, hit = set(), False
+        dereg = False
+        for a in h:
+            if a[0] == "peer_close":
+                closing = True
+            elif a[0] == "deregister":
+                dereg = True
+            elif a[0] == "send" and closing and not dereg:
+                sent_in_window.add(a[1])
+            elif a[0] == "cleanup" and dereg and a[1] in sent_in_window:
+                hit = True
+        return hit
+    pri = [b for b in close if sent_in_window_then_deregistered(b)]
+    rest = [b for b in close if not sent_in_window_then_deregistered(b) and any(a[0] in ("peer_close", "deregister") for a in b["hist"])]
+    close = rng.sample(pri, min(len(pri), 300 if thorough else 16)) + rng.sample(rest, min(len(rest), 200 if thorough else 8))
+    v.cov["peer_close_behaviours"] = {"with_a_call_written_in_the_closing_window_and_timed_out_after_deregistration": len(pri), "executed": len(close)}
     late = [b for b in one if any(a[0] == "timeout" for a in b["hist"]) and any(a[0] == "route" for a in b["hist"])][: (200 if thorough else 25)]
-    scen = {json.dumps(b["hist"]) + b["conn"]: b for b in sample_one + must + late + stale + two + seq2 + other}
+    scen = {json.dumps(b["hist"]) + b["conn"]: b for b in sample_one + must + late + stale + two + seq2 + other + close}
     scen = list(scen.values())
     for i, s in enumerate(scen):
         s["id"] = i
